@@ -10,7 +10,7 @@ import common, pool, specs, gens, c06, semcheck
 
 
 def run(ctx):
-    ctx.rule = ("partitioned specifications (G2 with several partitioned ranks per tensor, G3 incl. two-level occupancy, the occupancy+shape+flatten and double-flatten families, G3z: a >= 3-level dynamic split of an output rank next to a second partitioned rank), "
+    ctx.rule = ("partitioned specifications (G2 with several partitioned ranks per tensor, G3 incl. two-level occupancy, the occupancy+shape+flatten and double-flatten families, G3dd: two dynamic flattenings on one tensor, G3z: a >= 3-level dynamic split of an output rank next to a second partitioned rank), "
                 "corpus accelerator specifications and G7 specifications in metrics mode, each compiled under 6 (quick) / 16 (thorough) hash seeds incl. 0 and the run's own; "
                 "non-trivial = specification with >= 2 distinct texts across seeds; distinct = distinct (specification, text)")
     ctx.trusted = ["Lean kernel; Props/C08 and Props/C06", "hash seeds are sampled (the theorems cover all orders of independent statements / of commuting splits; which orders the "
@@ -18,7 +18,7 @@ def run(ctx):
     rng = random.Random(ctx.seed * 6007 + 8)
     k = 1 if ctx.tier == "quick" else 4
     fixed = []
-    for g, n in (("g2", 25 * k), ("g3", 20 * k), ("g3x", 8 * k), ("g3y", 12 * k), ("g3z", 15 * k), ("g3v", 14 * k), ("g3u", 8 * k)):
+    for g, n in (("g2", 25 * k), ("g3", 20 * k), ("g3x", 8 * k), ("g3y", 12 * k), ("g3z", 15 * k), ("g3v", 14 * k), ("g3u", 8 * k), ("g3dd", 10 * k)):
         for _ in range(n):
             case = getattr(gens, g)(rng)
             fixed.append(dict(case=case, modes=["plain"], input_seed=rng.randrange(10**9)))
